@@ -17,6 +17,7 @@ import CxxModel.Theorems.VarDecls
 import CxxModel.Theorems.VarInit
 import CxxModel.Theorems.TypedefForm
 import CxxModel.Theorems.FwdDecl
+import CxxModel.Theorems.UsingAliasForm
 import CxxModel.Theorems.AccessForm
 import CxxModel.Theorems.BlockEnd
 import CxxModel.Theorems.Verbose
@@ -689,5 +690,57 @@ theorem toplevel_forward_decl (env : Env) (hp : RulesProgress env.cfg = true) (F
     rw [hkt.2]
     rfl
   rw [hti, hi7, hcar]
+
+/-- **`using A = T ptr-ops ;` through `parse()`'s loop**, in any block, with an active visitor that
+    does not raise here: exactly ONE `on_using_alias` for the innermost open block with the alias
+    name, the type the abstract declarator denotes, the access level in force and the doc text
+    found; consumed exactly, no doc text handed on. -/
+theorem toplevel_using_alias (env : Env) (hp : RulesProgress env.cfg = true) (F D : Nat) (w : World)
+    (kw a eq first : Tok) (pairs : List (Tok × Tok)) (ops : List Tok) (semi : Tok) (d1 : DType) (bk ba bq b1 b0 bmid b' : Buf)
+    (blk : Block) (rest : List Block) (hstack : w.stack = blk :: rest)
+    (hmu : w.muted = false) (hfa : ¬ env.faultAt = some w.delivered)
+    (htkw : tokenEofOk env.cfg w.buf = .ok (some kw, bk)) (hkw : kw.type = "using")
+    (hta : tokenEofOk env.cfg bk = .ok (some a, ba)) (ha : a.type = "NAME")
+    (hte : tokenEofOk env.cfg ba = .ok (some eq, bq)) (heq : eq.type = "=")
+    (htf : tokenEofOk env.cfg bq = .ok (some first, b1)) (hf : first.type = "NAME") (hfv : identVal first.value = true)
+    (hall : ∀ p ∈ pairs, p.1.type = "DBL_COLON" ∧ p.2.type = "NAME" ∧ plainVal p.2.value = true)
+    (hy0 : Yields env.cfg b1 (pairs.flatMap (fun p => [p.1, p.2])) b0)
+    (hops : opsHeadOk ops = true)
+    (hy : Yields env.cfg b0 ops bmid)
+    (hap : applyPtrOps (.type (.mk (.name first.value none :: pairs.map (fun p => .name p.2.value none)) none false) false false)
+      (ops.map (·.type)) = some d1)
+    (hsemi : tokenEofOk env.cfg bmid = .ok (some semi, b')) (hs : semi.type = ";")
+    (hF : pairs.length + ops.length + 2 ≤ F) :
+    ∃ (d : Option String) (bD : Buf) (w7 : World) (ct : CTok) (ev : Event),
+      getDoxygen env.cfg env.mcRe w.buf = .ok (d, bD) ∧
+      interp env (mainBody F (core F (D + 1 + 1)) none) w = (w7, .ok (.inl none)) ∧
+      w7.buf = b' ∧ ct.value = kw.value ∧ w7.stack = { blk with loc := .tok ct.sidx } :: rest ∧
+      w7.events = w.events ++ [ev] ∧ ev.kind = .item (.usingAlias (plainAlias a d1 blk d)) ∧
+      ev.stateId = blk.id ∧ ev.parentId = rest.head?.map (·.id) ∧
+      w7.delivered = w.delivered + 1 ∧ w7.anon = w.anon ∧ w7.muted = false ∧ w7.nextId = w.nextId := by
+  obtain ⟨d, bD, wA, ct, hd, hsA, hbA, _, hv, hi⟩ := toplevel_dispatch env hp F (core F (D + 1 + 1)) w kw bk "_parse_using" htkw
+    (by rw [hkw, dispatch_table_eq]; decide) (by rw [hkw, keep_doxygen_eq]; decide)
+  obtain ⟨w', t', hs', htokT0, htyT, hx⟩ := using_alias_decl env F D ct d a eq first pairs ops semi d1 { wA with mainTok := some ct }
+    ba bq b1 b0 bmid b' blk rest (by show wA.stack = _; rw [hsA.stack]; exact hstack)
+    (by show tokenEofOk env.cfg wA.buf = _; rw [hbA]; exact hta) ha hte heq htf hf hfv hall hy0 hops hy hap hsemi hs hF
+  have hst' : w'.stack = { blk with loc := .tok ct.sidx } :: rest := hs'.stack
+  have hmu' : w'.muted = false := by rw [hs'.muted]; show wA.muted = _; rw [hsA.muted]; exact hmu
+  have hdl' : w'.delivered = w.delivered := by rw [hs'.delivered]; show wA.delivered = _; exact hsA.delivered
+  have hev' : w'.events = w.events := by rw [hs'.events]; show wA.events = _; exact hsA.events
+  have han' : w'.anon = w.anon := by rw [hs'.anon]; show wA.anon = _; exact hsA.anon
+  have hnx' : w'.nextId = w.nextId := by rw [hs'.nextId]; show wA.nextId = _; exact hsA.nextId
+  have hdel := deliver_passing env w' (mkEvent w' (.item (.usingAlias (plainAlias a d1 blk d)))
+    { blk with loc := .tok ct.sidx } (rest.head?.map (·.id))) hmu' (by rw [hdl']; exact hfa)
+  have htokT : tokenEofOk env.cfg
+      ({ w' with events := w'.events ++ [mkEvent w' (.item (.usingAlias (plainAlias a d1 blk d)))
+          { blk with loc := .tok ct.sidx } (rest.head?.map (·.id))], delivered := w'.delivered + 1 } : World).buf =
+      .ok (some t', b') := htokT0
+  obtain ⟨w2, c2, hi2, hb2, hs2, _, _⟩ := step_mustBe env [";"] _ t' b' htokT (by rw [htyT]; decide)
+  refine ⟨d, bD, w2, ct, _, hd, ?_, hb2, hv, by rw [hs2.stack]; exact hst', by rw [hs2.events, hev'], rfl, rfl, rfl,
+    by rw [hs2.delivered, hdl'], by rw [hs2.anon]; exact han', by rw [hs2.muted]; exact hmu', by rw [hs2.nextId]; exact hnx'⟩
+  rw [hi]
+  have hi2' := hi2
+  simp only [hst'] at hi2'
+  simp only [dispatch, hx, bind, interp_bind, P.emit, interp, hst', hdel, hi2', pure]
 
 end Cxx
